@@ -506,9 +506,11 @@ def run(repo, chk, tier):
     from .c05_cachedkey import check_cached_key_pairing
 
     check_cached_key_pairing(repo, chk, rule="B-zip", only_key="cached_amp")
-    from .c03_order import check_cached_fun_guard, check_coherent_sum, check_selection_order
+    from .c03_order import check_cached_fun_guard, check_coherent_sum, check_masked_read, check_selection_maps, check_selection_order
 
     check_selection_order(repo, chk)
+    check_selection_maps(repo, chk)
+    check_masked_read(repo, chk)
     check_coherent_sum(repo, chk)
     check_cached_fun_guard(repo, chk)
     from ..cacheown import check_persistent_state
